@@ -7,8 +7,11 @@ merges what they measured.  The oracle lives in harness.cpp (128-bit integer ari
 parent block).
 """
 import hashlib
+import json
 import os
+import re
 import struct
+import threading
 import time
 
 import vlib
@@ -93,19 +96,153 @@ def static_cases(b, cc):
     return [(op, pe, o, c, expected_well_formed(cc, pe, op, o, c)) for (op, pe, o, c) in out]
 
 
-# template arguments near PTRDIFF_MAX (dynamic parents only: on static parents the result extent would be negative)
-EXTREME = ["SFIRST(%s, -1, PMAX)", "SLAST(%s, -1, PMAX)", "SSUB1(%s, -1, PMAX)", "SSUB2(%s, -1, 0, PMAX)", "SSUB2(%s, -1, 1, PMAX)",
-           "SSUB2(%s, -1, 2, PMAX - 1)", "SSUB2(%s, -1, PMAX, 1)", "SSUB2(%s, -1, PMAX, PMAX)", "SSUB2(%s, -1, PMAX, -1)", "SFIRST(%s, -1, PMAX - 1)"]
+# template arguments near PTRDIFF_MAX (dynamic parents only: on static parents the result extent would be negative);
+# same shape as the matrix entries, with symbolic arguments
+EXTREME = [("first", -1, None, "PMAX"), ("last", -1, None, "PMAX"), ("sub1", -1, "PMAX", -1), ("sub2", -1, 0, "PMAX"), ("sub2", -1, 1, "PMAX"),
+           ("sub2", -1, 2, "PMAX - 1"), ("sub2", -1, "PMAX", 1), ("sub2", -1, "PMAX", "PMAX"), ("sub2", -1, "PMAX", -1), ("first", -1, None, "PMAX - 1")]
 
 
 def line(prefix, op, el, pe, o, c):
     if op == "first":
-        return "%sFIRST(%s, %d, %d)" % (prefix, el, pe, c)
+        return "%sFIRST(%s, %d, %s)" % (prefix, el, pe, c)
     if op == "last":
-        return "%sLAST(%s, %d, %d)" % (prefix, el, pe, c)
+        return "%sLAST(%s, %d, %s)" % (prefix, el, pe, c)
     if op == "sub1":
-        return "%sSUB1(%s, %d, %d)" % (prefix, el, pe, o)
-    return "%sSUB2(%s, %d, %d, %d)" % (prefix, el, pe, o, c)
+        return "%sSUB1(%s, %d, %s)" % (prefix, el, pe, o)
+    return "%sSUB2(%s, %d, %s, %s)" % (prefix, el, pe, o, c)
+
+
+def entries_for_part(b, cc, part, newly_well_formed):
+    """the template-argument instantiations of one element type, in generation order: [(prefix, op, pe, o, c)] with
+    prefix S = member form, N = non-member form (on a vector for pe == -1, on std::array<V,3> for pe == 3)"""
+    out = []
+    if part not in b["selems"]:
+        return out
+    extra = set((x[0], x[1], x[2], x[3]) for x in newly_well_formed)
+    for (op, pe, o, c, wf) in static_cases(b, cc):
+        if wf or (op, pe, o, c) in extra:
+            out.append(("S", op, pe, o, c))
+            if pe in (-1, 3) and part in b["nmelems"]:
+                out.append(("N", op, pe, o, c))
+    for (op, pe, o, c) in EXTREME:
+        out.append(("S", op, pe, o, c))
+    return out
+
+
+def has_valid_request(entry, nmax):
+    """reference semantics on the generator side: is the request valid for at least one parent size this instantiation
+    is executed on?  (an instantiation that only ever denotes invalid requests may legitimately be ill-formed: a
+    compile error is a rejection)"""
+    _, op, pe, o, c = entry
+    if isinstance(o, str) or isinstance(c, str):
+        return False   # arguments at PTRDIFF_MAX exceed every parent
+    for n in (range(0, nmax + 1) if pe < 0 else [pe]):
+        if op in ("first", "last"):
+            if 0 <= c <= n:
+                return True
+        elif op == "sub1" or c == -1:
+            if 0 <= o <= n:
+                return True
+        elif 0 <= o <= n and c >= 0 and o + c <= n:
+            return True
+    return False
+
+
+OPNAME = {"first": "first<C>", "last": "last<C>", "sub1": "subspan<O>", "sub2": "subspan<O,C>"}
+
+
+def entry_text(entry, el):
+    """the instantiation as a user would write it"""
+    prefix, op, pe, o, c = entry
+    targs = {"first": "%s" % c, "last": "%s" % c, "sub1": "%s" % o, "sub2": "%s, %s" % (o, c)}[op]
+    fn = "subspan" if op.startswith("sub") else op
+    if prefix == "S":
+        return "xtl::span<%s, %s>::%s<%s>()" % (el, "dynamic_extent" if pe < 0 else pe, fn, targs)
+    v = el.replace("const ", "")
+    cont = ("std::vector<%s>" % v) if pe < 0 else ("std::array<%s, %d>" % (v, pe))
+    return "tcb::%s<%s>(%s%s&)" % (fn, targs, "const " if el.startswith("const ") else "", cont)
+
+
+def entry_sig(entry):
+    prefix, op, pe, o, c = entry
+    if prefix == "S":
+        return "C16/%s/%s/valid-request-ill-formed" % ("span<T,dyn>" if pe < 0 else "span<T,N>", OPNAME[op])
+    return "C16/%s/%s(t)/valid-request-ill-formed" % ("nonmember(container)" if pe < 0 else "nonmember(std::array)", OPNAME[op])
+
+
+def probe_fn(entry, el, k):
+    """one function per instantiation, on one line (compiler diagnostics name the line)"""
+    prefix, op, pe, o, c = entry
+    targs = {"first": "%s" % c, "last": "%s" % c, "sub1": "%s" % o, "sub2": "%s, %s" % (o, c)}[op]
+    fn = "subspan" if op.startswith("sub") else op
+    if prefix == "S":
+        return "void f%d(xtl::span<%s, %d> s) { auto v = s.template %s<%s>(); (void)v; }" % (k, el, pe, fn, targs)
+    v = el.replace("const ", "")
+    cont = ("std::vector<%s>" % v) if pe < 0 else ("std::array<%s, %d>" % (v, pe))
+    return "void f%d(%s%s& t) { auto v = tcb::%s<%s>(t); (void)v; }" % (k, "const " if el.startswith("const ") else "", cont, fn, targs)
+
+
+PROBE_HEAD = ["// generated by checks/C16/check.py: one template-argument instantiation per line", "#include <xtl/xspan.hpp>", "#include <array>", "#include <limits>",
+              "#include <vector>", "#define PMAX (std::numeric_limits<std::ptrdiff_t>::max())", "struct rec12 { int id; int pad[2]; };"]
+
+
+def write_probe(el, entries):
+    txt = "\n".join(PROBE_HEAD + [probe_fn(e, el, k) for k, e in enumerate(entries)]) + "\n"
+    os.makedirs(GENROOT, exist_ok=True)
+    path = os.path.join(GENROOT, "inst-%s.cpp" % hashlib.sha256(txt.encode()).hexdigest()[:20])
+    if not os.path.exists(path):
+        tmp = path + ".tmp%d" % os.getpid()
+        open(tmp, "w").write(txt)
+        os.replace(tmp, path)
+    return path
+
+
+def syntax_ok(cc, std, mode, el, entries):
+    path = write_probe(el, entries)
+    return vlib.compile_cxx(path, "c16inst", std=std, san="none", opt="-O0", syntax_only=True, expect_fail=True, compiler=cc, defines=[MODES[mode]]) is not None
+
+
+def compiler_errors(cc, std, mode, path):
+    extra = ["-ferror-limit=0", "-fno-caret-diagnostics"] if cc.startswith("clang") else ["-fmax-errors=0", "-fno-diagnostics-show-caret"]
+    r = vlib.sh([cc, "-std=" + std, "-I" + vlib.INCLUDE, "-D" + MODES[mode], "-fsyntax-only"] + extra + [path])
+    return r.returncode, r.stderr
+
+
+def first_error_line(cc, std, mode, el, entry):
+    path = write_probe(el, [entry])
+    rc, err = compiler_errors(cc, std, mode, path)
+    for ln in err.splitlines():
+        if "error" in ln:
+            return ln.replace(vlib.INCLUDE + "/", "").replace(path, "<instantiation>").strip()[:300]
+    return "(no error line; rc=%d)" % rc
+
+
+def find_ill_formed(cc, std, mode, el, entries):
+    """which of the instantiations (all expected to be well-formed) do not compile?  Returns None when the failure cannot
+    be attributed to instantiations (the header alone does not compile).  One combined -fsyntax-only compile whose
+    diagnostics name the lines gives the candidates; every candidate is confirmed on its own; the rest must compile
+    together, otherwise it is bisected."""
+    if not entries or syntax_ok(cc, std, mode, el, entries):
+        return []
+    if not syntax_ok(cc, std, mode, el, []):
+        return None
+    path = write_probe(el, entries)
+    _, err = compiler_errors(cc, std, mode, path)
+    first = len(PROBE_HEAD) + 1
+    cand = sorted(set(int(m) - first for m in re.findall(re.escape(path) + r":(\d+):", err)))
+    cand = [k for k in cand if 0 <= k < len(entries)]
+    verdicts = vlib.parallel([(lambda k=k: syntax_ok(cc, std, mode, el, [entries[k]])) for k in cand], workers=4)
+    bad = [entries[k] for k, ok in zip(cand, verdicts) if not ok]
+
+    def bisect(es):
+        if not es or syntax_ok(cc, std, mode, el, es):
+            return []
+        if len(es) == 1:
+            return list(es)
+        h = len(es) // 2
+        return bisect(es[:h]) + bisect(es[h:])
+    badset = set(bad)
+    return bad + bisect([e for e in entries if e not in badset])
 
 
 def probe_ill_formed(b, cc):
@@ -142,29 +279,27 @@ def probe_ill_formed(b, cc):
     return [x for x, ok in zip(cases, res) if ok], len(cases)
 
 
-def generate(b, newly_well_formed, cc):
-    """writes c16_cases.inc into a content-addressed directory; returns (dir, counts)"""
+def generate(b, newly_well_formed, cc, exclude=()):
+    """writes c16_cases.inc into a content-addressed directory; returns (dir, counts).  exclude: {(part, entry)} of
+    instantiations that do not compile on this tree (reported separately) and are left out of the harness"""
     lines = []
     n_static = n_nm = n_dyn = 0
-    extra = set((x[0], x[1], x[2], x[3]) for x in newly_well_formed)
+    exclude = set(exclude)
     for part, el in enumerate(ELEMS):
         lines.append("#if C16_PART == %d" % part)
         if part in b["elems"]:
             for pe in [-1] + b["static_parents"]:
                 lines.append("DYNOPS(%s, %d)" % (el, pe))
                 n_dyn += 1
-        if part in b["selems"]:
-            for (op, pe, o, c, wf) in static_cases(b, cc):
-                if wf or (op, pe, o, c) in extra:
-                    lines.append(line("S", op, el, pe, o, c))
-                    n_static += 1
-                    # non-member forms: on a vector (dynamic) and on std::array<V,3>
-                    if pe in (-1, 3) and part in b["nmelems"]:
-                        lines.append(line("N", op, el, pe, o, c))
-                        n_nm += 1
-            for e in EXTREME:
-                lines.append(e % el)
+        for entry in entries_for_part(b, cc, part, newly_well_formed):
+            if (part, entry) in exclude:
+                continue
+            prefix, op, pe, o, c = entry
+            lines.append(line(prefix, op, el, pe, o, c))
+            if prefix == "S":
                 n_static += 1
+            else:
+                n_nm += 1
         lines.append("#endif")
     txt = "\n".join(lines) + "\n"
     d = os.path.join(GENROOT, "gen-" + hashlib.sha256(txt.encode()).hexdigest()[:16])
@@ -209,6 +344,65 @@ def build_one(gendir, mode, part, build):
 
 
 _PREP = {}
+_FALLBACK = {}
+_FALLBACK_LOCK = threading.Lock()
+
+
+def build_with_fallback(pe, mode, part, build):
+    """Builds the harness binary of one (mode, element type, build).  If the combined translation unit does not compile,
+    the template-argument instantiations of that element type are compiled individually (-fsyntax-only): those that the
+    manifest expects to be well-formed but are not are left out and returned; everything else is still built, run and
+    judged.  A failure that no single instantiation explains stays a harness error.
+    Returns (binary, [ill-formed entries], {entry: first compiler error line})."""
+    gendir, _, newly, _, bb = pe
+    try:
+        return build_one(gendir, mode, part, build), [], {}
+    except vlib.HarnessError as e:
+        first_failure = e
+    cc, std = build[0], build[1]
+    el = ELEMS[part]
+    key = (gendir, cc, std, mode, part)
+    with _FALLBACK_LOCK:
+        cached = _FALLBACK.get(key)
+    if cached is None:
+        entries = entries_for_part(bb, cc, part, newly)
+        bad = find_ill_formed(cc, std, mode, el, entries)
+        if not bad:   # None: the header itself does not compile; []: every instantiation compiles on its own
+            raise first_failure
+        errs = dict(zip(bad, vlib.parallel([(lambda x=x: first_error_line(cc, std, mode, el, x)) for x in bad[:40]], workers=4)))
+        gendir2, _ = generate(bb, newly, cc, exclude=[(part, x) for x in bad])
+        cached = (gendir2, bad, errs)
+        with _FALLBACK_LOCK:
+            _FALLBACK[key] = cached
+    gendir2, bad, errs = cached
+    return build_one(gendir2, mode, part, build), bad, errs
+
+
+def report_ill_formed(ctx, bad, errs, mode, part, build, nmax):
+    """one violation per (instantiation kind, operation): a request that is valid by the reference semantics must return
+    the requested view, so 'does not compile' violates the property; instantiations that only denote invalid requests
+    are manifest drift and are noted"""
+    el = ELEMS[part]
+    by_sig = {}
+    drift = []
+    for x in bad:
+        if has_valid_request(x, nmax):
+            by_sig.setdefault(entry_sig(x), []).append(x)
+        else:
+            drift.append(x)
+    for sig, xs in sorted(by_sig.items()):
+        x = xs[0]
+        msg = ("%s is ill-formed on this tree (%s -std=%s, %s build) although the request is valid (e.g. on a parent of %s elements it must return a view): %s"
+               % (entry_text(x, el), build[0], build[1], mode, "0..%d" % nmax if x[2] < 0 else x[2], errs.get(x) or first_error_line(build[0], build[1], mode, el, x)))
+        if len(xs) > 1:
+            msg += " -- %d instantiations of this operation with valid requests do not compile for element type %s: %s%s" % (
+                len(xs), el, ", ".join(entry_text(y, el) for y in xs[:12]), " ..." if len(xs) > 12 else "")
+        ctx.violation(sig, msg, harness=tag_of(mode, part, build), args=["--instantiation", json.dumps([x[0], x[1], x[2], x[3], x[4]])], build=list(build))
+    ctx.stat("valid_instantiations_ill_formed", sum(len(v) for v in by_sig.values()))
+    if drift:
+        ctx.stat("invalid_only_instantiations_ill_formed", len(drift))
+        ctx.note("instantiations that only denote invalid requests no longer compile (a compile error is a rejection; left out of the harness): %s%s"
+                 % (", ".join(entry_text(y, el) for y in drift[:8]), " ..." if len(drift) > 8 else ""))
 
 
 def scope_bounds(tier, scope):
@@ -252,8 +446,10 @@ def run(ctx):
         if bi > 0 and (ctx.time_left() < 300 or time.time() - ctx.t0 > BUDGET_S):
             skipped.append(tag_of(mode, part, build))
             return None
-        gendir, _, _, _, bb = prep[(build[3], build[0])]
-        binary = build_one(gendir, mode, part, build)
+        bb = prep[(build[3], build[0])][4]
+        binary, bad, errs = build_with_fallback(prep[(build[3], build[0])], mode, part, build)
+        if bad:
+            report_ill_formed(ctx, bad, errs, mode, part, build, bb["nmax"])
         tag = tag_of(mode, part, build)
         kf = os.path.join(keydir, tag + ".keys")
         recs = ctx.run_harness(binary, ["--nmax", str(bb["nmax"]), "--keys-out", kf], tag=tag, build=list(build))
@@ -323,17 +519,19 @@ def replay(ctx, rec):
     if len(build) < 4:
         build = tuple(build) + ("full",)
     prep = prepare(tier, [build])
-    gendir = prep[(build[3], build[0])][0]
-    part = None
+    pe = prep[(build[3], build[0])]
     args = list(rec["args"])
+    m = re.search(r"-p(\d+)-", tag)
+    part = int(m.group(1)) if m else 0
+    if args and args[0] == "--instantiation":
+        # a valid request whose instantiation does not compile: re-compile exactly that instantiation
+        x = tuple(json.loads(args[1]))
+        if not syntax_ok(build[0], build[1], mode, ELEMS[part], [x]):
+            report_ill_formed(ctx, [x], {}, mode, part, build, pe[4]["nmax"])
+        return
     if "--only" in args:
         key = args[args.index("--only") + 1]
-        el = key.split("|")[0]
         names = {"int": 0, "const int": 1, "uchar": 2, "const uchar": 2, "double": 3, "const double": 3, "rec12": 4, "const rec12": 5}
-        part = names.get(el)
-    if part is None:
-        import re
-        m = re.search(r"-p(\d+)-", tag)
-        part = int(m.group(1)) if m else 0
-    binary = build_one(gendir, mode, part, build)
+        part = names.get(key.split("|")[0], part)
+    binary, _, _ = build_with_fallback(pe, mode, part, build)
     ctx.run_harness(binary, args, tag=tag_of(mode, part, build), build=list(build))
